@@ -8,6 +8,11 @@ Import ListNotations.
 Definition complaints := Eval vm_compute in
   flat_complaints (check_program (contracts_C19_unwaived program) program entries lit_callees unsupported).
 Print complaints.
+(* check-then-act: no function writes a guarded field in one critical section on the strength of a read made in an earlier,
+   released critical section of the same lock (LockLang.cta; structural, see the comment there) *)
+Definition cta_complaints := Eval vm_compute in
+  flat_complaints (cta_program (contracts_C19 program) (reachable program entries)).
+Print cta_complaints.
 Definition stats := Eval vm_compute in
   (List.length program, List.length (reachable program entries), List.length entries).
 Print stats.
@@ -32,3 +37,6 @@ Theorem generated_stock_nodes_no_data_race_partial :
     (a = EA (Wr f) /\ reads_or_writes f b) \/ (b = EA (Wr f) /\ reads_or_writes f a) -> False.
 Proof. exact (program_no_data_race _ _ _ _ _ stock_nodes_race_free_partial). Qed.
 Print Assumptions generated_stock_nodes_no_data_race_partial.
+
+Theorem stock_nodes_no_check_then_act : cta_program (contracts_C19 program) (reachable program entries) = [].
+Proof. vm_compute. reflexivity. Qed.
